@@ -15,7 +15,7 @@ namespace Tephra.LexOps
 open Tephra
 
 inductive Op (τ : Type) where
-  | next | peek
+  | next | peek | emptyQ
   | nextIf (p : τ → Bool) | advanceTo (p : τ → Bool) | advanceUpTo (p : τ → Bool)
   | setFilter (f : Option Nat) | withFilter (f : Option Nat)
   | startSublex | intoSublexer | spans | forkBegin | forkEnd
@@ -33,6 +33,7 @@ variable {σ τ : Type}
 def applyOp (E : LexEnv σ τ) (lx : Lexer σ τ) : Op τ → Out τ × Lexer σ τ
   | .next => let r := lx.next E; (.tok r.1, r.2)
   | .peek => let r := lx.peek E; (.tok r.1, r.2)
+  | .emptyQ => let r := lx.isEmptyWithFilter E; (.flag r.1, r.2)
   | .nextIf p => let r := lx.nextIf E p; (.tok r.1, r.2)
   | .advanceTo p => let r := lx.advanceTo E p; (.flag r.1, r.2)
   | .advanceUpTo p => let r := lx.advanceUpTo E p; (.flag r.1, r.2)
@@ -78,7 +79,7 @@ def projectAux : Nat → List (Op τ) → List (Op τ)
     match op with
     | .forkBegin => projectAux (depth + 1) ops
     | .forkEnd => projectAux (depth - 1) ops
-    | .peek | .startSublex | .intoSublexer | .spans => projectAux depth ops
+    | .peek | .emptyQ | .startSublex | .intoSublexer | .spans => projectAux depth ops
     | _ => if depth > 0 then projectAux depth ops else op :: projectAux depth ops
 
 def project (ops : List (Op τ)) : List (Op τ) := projectAux 0 ops
